@@ -90,15 +90,18 @@ def DRMode.ofTok : String → Option DRMode
     port 81 with target port 8081 (HTTP). -/
 def inboundSvcPorts : List SvcPort :=
   [ { port := 80, target := 80, proto := .http }, { port := 8080, target := 8080, proto := .tcp },
-    { port := 9090, target := 9090, proto := .auto }, { port := 81, target := 8081, proto := .http } ]
+    { port := 9090, target := 9090, proto := .auto }, { port := 81, target := 8081, proto := .http },
+    -- a second service on target port 8080 with another protocol: a conflict, the first one wins
+    { port := 8082, target := 8080, proto := .http } ]
 
-/-- `<port>:<http|tcp>:<0|1>,...`: the ingress listeners of a Sidecar (no targetPort in that API). -/
+/-- `<port>:<http|tcp|auto>:<userTLS 0|1>:<captureMode NONE 0|1>,...`: the ingress listeners of a Sidecar (no targetPort in that API). -/
 def parseIngress (t : String) : List SvcPort :=
   (decList t).filterMap fun e =>
     match e.splitOn ":" with
-    | [p, proto, tls] =>
+    | [p, proto, tls, cap] =>
       let n := p.toNat?.getD 0
-      some { port := n, target := n, proto := if proto == "http" then .http else .tcp, userTLS := tls == "1" }
+      let lp : LProto := if proto == "http" then .http else if proto == "tcp" then .tcp else .auto
+      some { port := n, target := n, proto := lp, userTLS := tls == "1", bind := cap == "1" }
     | _ => none
 
 def LChain.show (c : LChain) : String :=
@@ -113,16 +116,66 @@ def LChain.show (c : LChain) : String :=
     | .none => "0"
     | .tls => "1"
     | .mtls => "2"
-  s!"{dst}:{boolTok c.chain.transportTLS}.{alpn}.{boolTok c.chain.http}.{sock}"
+  let lst := match c.lst with
+    | none => ""
+    | some p => s!"L{p}/"
+  s!"{lst}{dst}:{boolTok c.chain.transportTLS}.{alpn}.{boolTok c.chain.http}.{sock}"
 
-def showInbound (root : String) (pas : List PA) (w : Workload) (svc : List SvcPort) : String :=
-  joinOrDash (sortStrings ((inboundChains root pas w svc).map LChain.show))
+def Sock.tok : Sock → String
+  | .none => "0"
+  | .tls => "1"
+  | .mtls => "2"
+
+/-- HBONE chains: the transport-protocol match is cleared (`sanitizeFilterChainForHBONE`). -/
+def LChain.showHbone (c : LChain) : String :=
+  let dst := match c.dst with
+    | none => "*"
+    | some p => toString p
+  let alpn := match c.chain.alpn with
+    | .any => "0"
+    | .istio => "1"
+    | .plain => "2"
+  s!"{dst}:{alpn}.{boolTok c.chain.http}.{c.chain.sock.tok}"
+
+def showHbone (root : String) (pas : List PA) (w : Workload) (svc : List SvcPort) : String :=
+  let m := compose root ((initAuthn root pas).configsFor w)
+  let fm := forHBONEMode m
+  let inner := joinOrDash (sortStrings ((hboneInnerChains svc).map LChain.showHbone))
+  s!"H={hboneTerminateSock.tok} F={fm.tok}.{(sockFor fm true).tok}.{(sockFor fm true).tok} I={inner}"
+
+def showInbound (root : String) (pas : List PA) (w : Workload) (ingress : List SvcPort) (merge : Bool) : String :=
+  let cfgs := chainConfigs inboundSvcPorts ingress merge
+  -- "bh:15006.0": the blackhole chain for the listener's own port, always there
+  joinOrDash (sortStrings ("bh:15006.0" :: (inboundChains root pas w cfgs (declaredPorts inboundSvcPorts ingress)).map LChain.show))
 
 def showKeys (root : String) (k : AKeys) : String :=
   encList (sortStrings ((if k.static then [s!"{root}/istio_converted_static_strict"] else []) ++
     (match k.wl with
      | none => []
      | some p => [s!"{p.ns}/converted_peer_authentication_{p.name}"])))
+
+def optDR (t : String) : Option DRMode := if t == "-" || t == "nil" then none else DRMode.ofTok t
+
+/-- `p=M;p=nil` or `-`. -/
+def parseTPorts (t : String) : List (Nat × Option DRMode) :=
+  if t == "-" || t == "" then [] else
+  (t.splitOn ";").map (fun e => let c := cut e "="; (c.1.toNat?.getD 0, optDR c.2))
+
+/-- DestinationRule token of `chk`: `nil`, a bare TLS mode (rule-level `tls` only), or
+    `<tls|->/<ports>/<subset~tls~ports+...|->/<selected subset|->`; result: (rule, subset name). -/
+def parseDR (t : String) : Option DRule × String :=
+  if t == "nil" then (none, "") else
+  match t.splitOn "/" with
+  | [tls, ports, subsets, sel] =>
+    let top : Option TPolicy := if tls == "-" && ports == "-" then none else some { tls := optDR tls, ports := parseTPorts ports }
+    let subs := if subsets == "-" then [] else
+      (subsets.splitOn "+").map (fun e =>
+        match e.splitOn "~" with
+        | [n, stls, sports] =>
+          (n, (if stls == "-" && sports == "-" then none else some { tls := optDR stls, ports := parseTPorts sports } : Option TPolicy))
+        | _ => (e, none))
+    (some { top := top, subsets := subs }, if sel == "-" then "" else sel)
+  | _ => (some { top := some { tls := DRMode.ofTok t, ports := [] }, subsets := [] }, "")
 
 def step (s : DState) (toks : List String) : DState × String :=
   match toks with
@@ -146,7 +199,9 @@ def step (s : DState) (toks : List String) : DState × String :=
     -- the client side as production runs it: on the client proxy's filtered view
     let w : Workload := { ns := dec ns, labels := parseLabels labels }
     let view := sidecarView s.root s.pas (dec clientNs) (decList imported)
-    let r := checkMtlsEnabledIn view (DRMode.ofTok dr) (tokBool epTLS) w (port.toNat?.getD 0)
+    let d := parseDR dr
+    -- the service port of the cluster is 80 in the harness
+    let r := checkMtlsEnabledIn view (drTLSMode d.1 d.2 80) (tokBool epTLS) w (port.toNat?.getD 0)
     let vi := versionIndex s.vers (canonVersion view.version)
     ({ s with vers := vi.2 },
      s!"{boolTok r} BE={(bestEffortServiceMode view w.ns).tok} NS={(view.namespaceMode w.ns).tok} V={vi.1}")
@@ -170,10 +225,25 @@ def step (s : DState) (toks : List String) : DState × String :=
         | some p => s!"{p.ns}/{p.name}")
   | ["il", ns, labels] =>
     let w : Workload := { ns := dec ns, labels := parseLabels labels }
-    (s, showInbound s.root s.pas w inboundSvcPorts)
-  | ["ils", ns, labels, ingress] =>
+    (s, showInbound s.root s.pas w [] false)
+  | ["cl", ns, labels, clientNs, kind] =>
+    -- the composed client decision end to end (CDS + EDS on the client, LDS on the server), one service on port 80
     let w : Workload := { ns := dec ns, labels := parseLabels labels }
-    (s, showInbound s.root s.pas w (parseIngress ingress))
+    let view := sidecarView s.root s.pas (dec clientNs) [w.ns]
+    let external := kind == "external"
+    let passthrough := kind == "passthrough" || kind == "ptdisabled"
+    let be := bestEffortFull view w.ns external passthrough [kind == "ptdisabled"]
+    let c := !external && clusterHasAutoMTLS be
+    let e := if passthrough then "-" else boolTok (checkMtlsEnabledIn view none (kind != "noistio") w 80)
+    let sv := joinOrDash (sortStrings (((inboundChains s.root s.pas w [{ port := 80, target := 80, proto := .http }]).filter
+      (fun c => c.dst == some 80)).map LChain.show))
+    (s, s!"C={boolTok c} E={e} BE={be.tok} S={sv}")
+  | ["ilh", ns, labels] =>
+    let w : Workload := { ns := dec ns, labels := parseLabels labels }
+    (s, s!"{showInbound s.root s.pas w [] false} {showHbone s.root s.pas w (chainConfigs inboundSvcPorts [] false)}")
+  | ["ils", ns, labels, ingress, merge] =>
+    let w : Workload := { ns := dec ns, labels := parseLabels labels }
+    (s, showInbound s.root s.pas w (parseIngress ingress) (merge == "1"))
   | ["aq", ns, labels, ports] =>
     let w : Workload := { ns := dec ns, labels := parseLabels labels }
     (s, showAmbientG s.fx s.root s.pas w (parsePortList ports))
